@@ -8,7 +8,7 @@
 From Coq Require Import List Arith Bool NArith.
 From FFSM2 Require Import Model.TaskList Model.BitArray Model.BitStream Model.Plan Model.Ancestors Model.Machine
   Proofs.BitArrayProofs Proofs.TaskListProofs Proofs.TaskListRun Proofs.PlanProofs Proofs.MachineFrame Proofs.MachinePlan Proofs.MachineLife Proofs.GuardProofs Proofs.CycleProofs Proofs.PlanStep
-  Proofs.SerialProofs Proofs.LogProofs Proofs.MachineTop Model.Multi Generated.InitFacts Proofs.ConstructProofs Proofs.LifeMonitor Proofs.ActivationRounds Proofs.IndexSafety Proofs.FeatureProofs Model.Script Proofs.Contract Proofs.Histories Proofs.StatusBits.
+  Proofs.SerialProofs Proofs.LogProofs Proofs.MachineTop Model.Multi Generated.InitFacts Proofs.ConstructProofs Proofs.LifeMonitor Proofs.ActivationRounds Proofs.IndexSafety Proofs.FeatureProofs Model.Script Proofs.Contract Proofs.Histories Proofs.StatusBits Proofs.Worlds Model.Cxx Generated.LeafCode Proofs.LeafTactics Proofs.LeafConsts Proofs.LeafCodeTaskList.
 Import ListNotations.
 
 (* every history of plan edits, any length: returned values (append succeeded / refused, the tasks an iterating removal
@@ -156,7 +156,7 @@ Theorem C10_every_reachable_machine_state :
          wf_oracle P cfg orc ->
          forall (lg : bool) (ops : list (api_op P)) (ts : list (nat * nat)),
          ops_ok P cfg orc (construct P cfg orc lg) ops ->
-         let d := plan P (co P (run P cfg orc lg ops)) in
+         let d := plan P (co P (Machine.run P cfg orc lg ops)) in
          PIc P cfg d /\
          (plan_tasks P (c_cap cfg) d = [] ->
           length ts = c_cap cfg ->
@@ -233,4 +233,46 @@ Theorem C10_tasklist_no_leak :
           t_count t' = cap /\ (forall (o d : nat) (p : option P), emplace P cap t' o d p = (t', INVALID)).
 Proof. exact (emplace_all_spec). Qed.
 Print Assumptions C10_tasklist_no_leak.
+
+(* the tie to the source, by proof (DESIGN.md 4.7): the body of TaskListT<void, N>::emplace(origin, destination) as
+   tools/leafcode.py translates it from clang's typed AST of /repo's current task_list.inl on every run (the array of
+   items as one array per field, prev/next sharing storage with origin/destination as the union in TaskBase says), run
+   in the interpreter of Model/Cxx.v on any list satisfying the invariant FL - hence on every list any operation
+   sequence reaches - stays inside the array and computes exactly the model's emplace, for every capacity up to 255 *)
+Theorem C10_source_emplace_is_the_model :
+  forall (P : Type) (cap : nat) (t : tl P) (vac : list nat) (occ : list (nat * slot P)) (o d : nat),
+         FL P cap t vac occ ->
+         o <= 255 ->
+         d <= 255 ->
+         result
+           (run leaf_ftable (tl_consts cap) TaskListT_void_5__emplace_u8_u8
+              [BinInt.Z.of_nat o; BinInt.Z.of_nat d] (tl_fields t) (tl_arrays t)) =
+         (let
+          '(t', r) := emplace P cap t o d None in Some (Some (BinInt.Z.of_nat r), tl_fields t', tl_arrays t')).
+Proof. exact (src_TaskList_emplace_FL). Qed.
+Print Assumptions C10_source_emplace_is_the_model.
+
+(* the tie to the source, by proof (DESIGN.md 4.7): the body of TaskListT<void, N>::remove(i) as tools/leafcode.py
+   translates it from clang's typed AST of /repo's current task_list.inl on every run (the array of items as one array
+   per field, prev/next sharing storage with origin/destination as the union in TaskBase says), run in the interpreter
+   of Model/Cxx.v on any list satisfying the invariant FL - hence on every list any operation sequence reaches - stays
+   inside the array and computes exactly the model's remove, for every capacity up to 255 *)
+Theorem C10_source_remove_is_the_model :
+  forall (P : Type) (cap : nat) (t : tl P) (vac : list nat) (occ : list (nat * slot P)) (i : nat),
+         FL P cap t vac occ ->
+         In i (map fst occ) ->
+         result
+           (run leaf_ftable (tl_consts cap) TaskListT_void_5__remove [BinInt.Z.of_nat i] 
+              (tl_fields t) (tl_arrays t)) =
+         Some (None, tl_fields (remove P cap t i), tl_arrays (remove P cap t i)).
+Proof. exact (src_TaskList_remove_FL). Qed.
+Print Assumptions C10_source_remove_is_the_model.
+
+(* ... and clear() resets exactly the four indices *)
+Theorem C10_source_clear_is_the_model :
+  forall (P : Type) (cap : nat) (t : tl P),
+         result (run leaf_ftable (tl_consts cap) TaskListT_void_5__clear [] (tl_fields t) (tl_arrays t)) =
+         Some (None, tl_fields (tl_clear P t), tl_arrays (tl_clear P t)).
+Proof. exact (src_TaskList_clear). Qed.
+Print Assumptions C10_source_clear_is_the_model.
 
